@@ -470,4 +470,104 @@ theorem full_statement_partial : SequentialPart ∧ InterleavingPart :=
   ⟨fun _ _ cfg op resp => submit_meets_spec cfg op resp,
    fun _ _ cfg net ops sched i h => completed_call_result cfg net ops sched i h⟩
 
+/-! ### `%q` is injective: the error message names *that* content type and no other -/
+
+def unhex (c : UInt8) : UInt8 := if c < 58 then c - 48 else c - 87
+
+/-- reads one quoted byte off the front of a `%q` body -/
+def unq1 : Bytes → Option (UInt8 × Bytes)
+  | [] => none
+  | c :: r =>
+    if c != 92 then some (c, r)
+    else match r with
+      | [] => none
+      | e :: r' =>
+        if e == 120 then
+          match r' with
+          | h1 :: h2 :: r'' => some (unhex h1 * 16 + unhex h2, r'')
+          | _ => none
+        else if e == 97 then some (7, r') else if e == 98 then some (8, r')
+        else if e == 102 then some (12, r') else if e == 110 then some (10, r')
+        else if e == 114 then some (13, r') else if e == 116 then some (9, r')
+        else if e == 118 then some (11, r') else some (e, r')
+
+theorem hex_round_nat : ∀ n, n < 256 →
+    unhex (hexLow ((UInt8.ofNat n).toNat / 16)) * 16 + unhex (hexLow ((UInt8.ofNat n).toNat % 16)) = UInt8.ofNat n := by
+  decide +kernel
+
+theorem hex_round (b : UInt8) :
+    unhex (hexLow (b.toNat / 16)) * 16 + unhex (hexLow (b.toNat % 16)) = b := by
+  have h := hex_round_nat b.toNat b.toNat_lt
+  simpa using h
+
+theorem unq1_quoteByte : ∀ (b : UInt8) (rest : Bytes), unq1 (quoteByte b ++ rest) = some (b, rest) := by
+  intro b rest
+  have hx := hex_round b
+  unfold quoteByte
+  split
+  · rename_i h; have : b = 34 := by simpa using h
+    subst this; rfl
+  split
+  · rename_i h; have : b = 92 := by simpa using h
+    subst this; rfl
+  split
+  · rename_i h1 h2 _
+    have : (b != 92) = true := by simpa using h2
+    simp [unq1, this]
+  split
+  · rename_i h; have : b = 7 := by simpa using h
+    subst this; rfl
+  split
+  · rename_i h; have : b = 8 := by simpa using h
+    subst this; rfl
+  split
+  · rename_i h; have : b = 12 := by simpa using h
+    subst this; rfl
+  split
+  · rename_i h; have : b = 10 := by simpa using h
+    subst this; rfl
+  split
+  · rename_i h; have : b = 13 := by simpa using h
+    subst this; rfl
+  split
+  · rename_i h; have : b = 9 := by simpa using h
+    subst this; rfl
+  split
+  · rename_i h; have : b = 11 := by simpa using h
+    subst this; rfl
+  · simp [unq1, hx]
+
+theorem quoteBody_injective (a b : Bytes) (h : a.flatMap quoteByte = b.flatMap quoteByte) : a = b := by
+  induction a generalizing b with
+  | nil =>
+    cases b with
+    | nil => rfl
+    | cons y ys =>
+      have := unq1_quoteByte y (ys.flatMap quoteByte)
+      simp only [List.flatMap_nil, List.flatMap_cons] at h
+      rw [← h] at this; simp [unq1] at this
+  | cons x xs ih =>
+    cases b with
+    | nil =>
+      have := unq1_quoteByte x (xs.flatMap quoteByte)
+      simp only [List.flatMap_nil, List.flatMap_cons] at h
+      rw [h] at this; simp [unq1] at this
+    | cons y ys =>
+      have hx := unq1_quoteByte x (xs.flatMap quoteByte)
+      have hy := unq1_quoteByte y (ys.flatMap quoteByte)
+      simp only [List.flatMap_cons] at h
+      rw [h, hy] at hx
+      simp only [Option.some.injEq, Prod.mk.injEq] at hx
+      rw [hx.1, ih ys hx.2.symm]
+
+theorem goQuote_injective (a b : Bytes) (h : goQuote a = goQuote b) : a = b := by
+  unfold goQuote at h
+  exact quoteBody_injective a b (List.append_cancel_left (List.append_cancel_right h))
+
+/-- Two "no consumer" messages are equal only for equal content types: the message names the very
+content type of the response. -/
+theorem noConsumerMsg_injective (a b : Bytes) (h : noConsumerMsg a = noConsumerMsg b) : a = b :=
+  goQuote_injective a b (List.append_cancel_left h)
+
+
 end RtVerif.C13
